@@ -12,6 +12,7 @@ import re
 import subprocess
 import threading
 import time
+import typing as t
 
 import pane
 from pane.convert import ConverterHandlers, make_converter
@@ -55,6 +56,12 @@ def fresh_type(desc: str):
         return set[int]
     if desc == 'StructAInt':
         return {'a': int}
+    if desc == 'ListUIF':
+        return list[t.Union[int, float]]
+    if desc == 'ListUFI':
+        return list[t.Union[float, int]]       # equal (==) to ListUIF as an alias, different in meaning
+    if desc == 'ListLitFloat':
+        return list[t.Union[t.Literal[1, 2], float]]
     raise KeyError(desc)
 
 
@@ -71,10 +78,16 @@ def abstract_type(desc: str, h: str) -> dict:
         return {'k': 'set', 'e': T_INT}
     if desc == 'StructAInt':
         return {'k': 'struct', 'fs': [['s_a', T_INT]]}
+    if desc == 'ListUIF':
+        return {'k': 'list', 'e': {'k': 'union', 'alts': [T_INT, T_FLOAT]}}
+    if desc == 'ListUFI':
+        return {'k': 'list', 'e': {'k': 'union', 'alts': [T_FLOAT, T_INT]}}
+    if desc == 'ListLitFloat':
+        return {'k': 'list', 'e': {'k': 'union', 'alts': [{'k': 'lit', 'vs': [{'k': 'int', 'n': 1}, {'k': 'int', 'n': 2}]}, T_FLOAT]}}
     raise KeyError(desc)
 
 
-PROBES = [['a', 'b'], [1, 2], {'a': 1.5}, [3, 'x'], {'a': 1}, [1.5], 'zz', []]
+PROBES = [['a', 'b'], [3], [1, 2], {'a': 1.5}, [3, 'x'], {'a': 1}, [1.5], [1], 'zz', []]
 
 
 # ---------------------------------------------------------------------------------------
@@ -263,7 +276,7 @@ def sequential_histories(seed: int, n: int, length: int) -> tuple:
     short-lived type objects, through the public from_data."""
     import random
     rnd = random.Random(seed)
-    descs = ['ListStr', 'DictStrFloat', 'TupIntStr', 'ListMy', 'SetInt', 'StructAInt']
+    descs = ['ListStr', 'DictStrFloat', 'TupIntStr', 'ListMy', 'SetInt', 'StructAInt', 'ListUIF', 'ListUFI', 'ListLitFloat']
     events, desc = [], {}
     ident = 10 ** 6
     stats = {'steps': 0, 'id_reused_for_other_type': 0}
